@@ -158,9 +158,19 @@ def req_key(ln):
 
 def req_campaign(ctx, fams, rfams=(), consistent=True):
     """whole-request campaign: TLC-generated cases (Gen_Req) and harness-proposed ones, judged by Trace_Req"""
-    for fam, bound in fams:
+    for item in fams:
+        fam, bound = item[0], item[1]
         inv = "Emit\nINVARIANT ConsistentFirst\nINVARIANT SpellingKeepsCanonicalForm"
         cases, n = tlc_gen(ctx, "Gen_Req", {"Family": fam, "Bound": bound}, "%s-%s" % (fam, bound), invariant=inv)
+        if len(item) > 2 and item[2] > 1:
+            # a third element is a stride: keep every k-th case (in case-id order, so the choice does not depend on the
+            # order in which TLC's workers emitted them); the run is then a sample, not the whole family
+            lines = sorted((x for x in open(cases).read().split("\n") if x), key=lambda x: json.loads(x)["id"])
+            lines = lines[ctx.seed % item[2]:: item[2]]
+            with open(cases, "w") as w:
+                w.write("\n".join(lines) + "\n")
+            ctx.campaigns[-1].update({"cases": len(lines), "exhaustive": False, "stride": item[2]})
+            ctx.exhaustive = False
         tr = hrun(ctx, cases, fam)
         validate_req(ctx, tr, fam, cases)
 
@@ -259,7 +269,8 @@ def C13(ctx):
     pipeline_mc(ctx, q)
     mc(ctx, "SigV4", "MC_SigV4_bug_scope_before_window.cfg", expect_violation="Precedence", label="neg-scope-before-window")
     fn_campaign(ctx, [("errtable", 0)], [])
-    req_campaign(ctx, [("defects", 2 if q else 14), ("scripts", 1 if q else 0), ("degenerate", 0), ("akid", 0)])
+    req_campaign(ctx, [("defects", 2 if q else 14), ("scripts", 1 if q else 0), ("degenerate", 0), ("akid", 0),
+                       ("reqfold", 0), ("ioerr", 0), ("cfgmix", 0, 13 if q else 1)])
     return dict(
         rule="MC: SigV4.tla Precedence/Taxonomy over every subset of simultaneous defects (%s) x 4 carriers x provider "
              "scripts; E: one wire request per (defect subset with <= %d defects, carrier, 3 witnesses per rule), rendered "
@@ -276,7 +287,7 @@ def C14(ctx):
     for bug, inv in (("call_before_rules", "ProviderLast"), ("retry_on_error", "ProviderOnce"),
                      ("accept_on_provider_error", "OkNeedsAnswer"), ("skip_ready", "CallOnlyWhenReady")):
         mc(ctx, "SigV4", "MC_SigV4_bug_%s.cfg" % bug, expect_violation=inv, label="neg-" + bug)
-    req_campaign(ctx, [("scripts", 0), ("defects", 1), ("forever", 0), ("zerokey", 0), ("ioerr", 0), ("akid", 0), ("adapter", 0)])
+    req_campaign(ctx, [("scripts", 0), ("defects", 1), ("forever", 0), ("zerokey", 0), ("ioerr", 0), ("akid", 0), ("adapter", 0), ("dup", 0)])
     return dict(
         rule="MC: provider process with delayed readiness / delayed answer / SignatureError / foreign error scripts, "
              "ProviderOnce, ProviderLast, CallOnlyWhenReady, CallsExact, OkNeedsAnswer, HistoryFree over histories of "
@@ -291,7 +302,7 @@ def C01(ctx):
     pipeline_mc(ctx, q)
     mb = 0 if q else 1
     req_campaign(ctx, [("sigmut", 0), ("mut_struct", 0), ("mut_key", 0), ("mut_body", mb), ("mut_uri", mb), ("mut_hdr", mb),
-                       ("s3hash", 0), ("zerokey", 0)]
+                       ("s3hash", 0), ("zerokey", 0), ("fold", 1)]
                  + ([] if q else [("base", 1)]))
     logical_campaign(ctx, 400 if q else 20000)
     return dict(
@@ -307,7 +318,7 @@ def C02(ctx):
     q = ctx.quick
     pipeline_mc(ctx, q)
     req_campaign(ctx, [("spell", 0), ("base", 0 if q else 1), ("midnight", 0), ("window", 0 if q else 1), ("fold", 1),
-                       ("s3hash", 0)])
+                       ("s3hash", 0), ("dup", 0), ("cfgmix", 0, 13 if q else 1)])
     suite_campaign(ctx)
     logical_campaign(ctx, 400 if q else 20000)
     return dict(
@@ -356,7 +367,7 @@ def C05(ctx):
     q = ctx.quick
     pipeline_mc(ctx, q)
     fn_campaign(ctx, [("vreqs", 2 if q else 3)], [])
-    req_campaign(ctx, [("reqs", 0 if q else 2)])
+    req_campaign(ctx, [("reqs", 0 if q else 2), ("reqfold", 0)])
     return dict(
         rule="E: every combination of always-required {content-type, x-req}, conditionally required {etag, x-opt} and "
              "prefix {x-amz, x-a} sets (64) in lower / UPPER / mIxEd case through the slice, vec(new) and vec(add_*) "
@@ -402,7 +413,7 @@ def C15(ctx):
     q = ctx.quick
     pipeline_mc(ctx, q)
     fn_campaign(ctx, [("foldsize", 0)], [])
-    req_campaign(ctx, [("passthru", 0), ("fold", 0)] + ([] if q else [("base", 1)]))
+    req_campaign(ctx, [("passthru", 0), ("fold", 0), ("reqfold", 0), ("cfgmix", 0, 13 if q else 1)] + ([] if q else [("base", 1), ("fold", 1)]))
     logical_campaign(ctx, 400 if q else 20000)
     return dict(
         rule="E: 5 methods (incl. extension methods) x 5 HTTP versions x 5 header multisets (repeats, empty and non-UTF-8 "
@@ -417,7 +428,7 @@ def C17(ctx):
     q = ctx.quick
     pipeline_mc(ctx, q)
     fn_campaign(ctx, [("leakfn", 0)], [])
-    req_campaign(ctx, [("leak_defects", 1 if q else 2), ("leak_scripts", 0), ("leak_sigmut", 0)])
+    req_campaign(ctx, [("leak_defects", 1 if q else 2), ("leak_scripts", 0), ("leak_sigmut", 0), ("leak_long", 0)])
     return dict(
         rule="Every validation in the leak families runs with a capturing `log` logger at Trace level; the harness searches "
              "each log record, the Display and Debug text of the returned error, and the Debug text of the canonical "
@@ -514,7 +525,7 @@ def C08(ctx):
                       ("ts_affix", 0), ("path_trunc", 0), ("helper_bytes", 0), ("helper_trim", 3 if q else 5)],
                 [("ts", 3000 if q else 100000), ("key", 2000 if q else 50000), ("path", 3000 if q else 100000),
                  ("query", 3000 if q else 100000), ("hval", 2000 if q else 50000)])
-    req_campaign(ctx, [("charsets", 0), ("degenerate", 0), ("defects", 1 if q else 2)])
+    req_campaign(ctx, [("charsets", 0), ("degenerate", 0), ("defects", 1 if q else 2), ("leak_long", 0), ("cfgmix", 0, 13 if q else 1)])
     cases, n = hgen(ctx, "reqfuzz", 3000 if q else 200000)
     tr = hrun(ctx, cases, "R:reqfuzz")
     validate_req(ctx, tr, "R:reqfuzz", cases)
@@ -555,7 +566,8 @@ def C18(ctx):
     # corpus: valid requests of many shapes, every single defect, repeated inputs, folded forms
     corpus = os.path.join(ctx.sub("corpus"), "cases.ndjson")
     with open(corpus, "w") as w:
-        for fam, bound in [("base", 0 if q else 1), ("defects", 1), ("dup", 0), ("fold", 1), ("reqs", 0)]:
+        for fam, bound in [("base", 0 if q else 1), ("defects", 1), ("dup", 0), ("fold", 1), ("reqs", 0), ("leak_long", 0),
+                           ("reqfold", 0)]:
             cases, n = tlc_gen(ctx, "Gen_Req", {"Family": fam, "Bound": bound}, "%s-%s" % (fam, bound))
             lines = [x for x in open(cases).read().split("\n") if x]
             if q and len(lines) > 400:
@@ -608,11 +620,17 @@ def C18(ctx):
         runs.append((nt, rounds, ctx.seed + i))
     for k in range(nproc):
         runs.append((1, 1, ctx.seed + 100 + k))
+    # the ambient log level is not an input either: two more processes render every log record (Trace level) and drop it
+    runs.append((1, 1, -1))
+    runs.append((4, 2, -2))
     t0 = time.time()
     for j, (nt, rounds, seed) in enumerate(runs):
         out = os.path.join(d, "det-%d.ndjson" % j)
-        rc, o = sh([CONFORM, "threads", corpus, out, str(nt), str(rounds), str(seed)], timeout=3600,
-                   env={"RUST_BACKTRACE": "0"})
+        env = {"RUST_BACKTRACE": "0"}
+        if seed < 0:
+            env["VERIF_LOG"] = "trace"
+            seed = ctx.seed + 200 - seed
+        rc, o = sh([CONFORM, "threads", corpus, out, str(nt), str(rounds), str(seed)], timeout=3600, env=env)
         if rc != 0:
             # abnormal termination of a concurrent run is a finding, not a tool error
             ctx.violation([{"run": [nt, rounds, seed]}], {"module": "Trace_Det", "abnormal_exit": rc, "tail": o[-400:]})
